@@ -552,11 +552,18 @@ def prop_rdv(line, impl, model):
             return "no request was made"
         return None if res == "res=err" else "no request but a result"
     method, scheme, urlhost, hosthdr, path, query, body = req
+    if op == "amp" and cache is None and data != b"":
+        bp = b[5]
+        want = (bp[: bp.rfind(b"/") + 1] or b"/") + b"amp/client/0AAAAAAAAAAAA/" + b64u(data)
+        if path != want:
+            return "AMP rendezvous path is %r, the broker URL's directory + amp/client/<encoded poll> is %r" % (path, want)
     if op == "http":
         if method != b"POST" or body != data:
             return "HTTP rendezvous did not POST the poll as the body"
-        if not path.endswith(b"/client"):
-            return "HTTP rendezvous path does not end in /client"
+        bp = b[5]
+        want = (bp[: bp.rfind(b"/") + 1] or b"/") + b"client"
+        if path != want:
+            return "HTTP rendezvous path is %r, the broker URL's directory + \"client\" is %r" % (path, want)
     else:
         if method != b"GET" or body is not None:
             return "AMP rendezvous is not a body-less GET"
